@@ -39,9 +39,17 @@ class Qual:
         if self.sentinel is None:
             return True
         s = self.sentinel
+        from core import numeric
+        want = ("(Ne(%s,%s))" % (p, s), "!(Eq(%s,%s))" % (p, s), "(Ne(%s,%s))" % (s, p), "!(Eq(%s,%s))" % (s, p))
+        wantn = None
         for a in atoms:
-            if a in ("(Ne(%s,%s))" % (p, s), "!(Eq(%s,%s))" % (p, s), "(Ne(%s,%s))" % (s, p), "!(Eq(%s,%s))" % (s, p)):
+            if a in want:
                 return True
+            if "const:" in a and ("Ne(" in a or "Eq(" in a):
+                # `match link { NO_STREAM => .., id => .. }` compares with the constant's value, not its name
+                wantn = wantn or tuple(numeric(w) for w in want)
+                if numeric(a) in wantn:
+                    return True
         return False
 
     def _checked_since(self, f, l, p, dnode, use):
@@ -188,6 +196,14 @@ class Qual:
                     parts = _split_top(pp[len(head):-1])
                     if idx[0] < len(parts):
                         return self.check_prov(par, parts[idx[0]], [], None, depth + 1, seen, sent)
+        # the payload of an Option-valued variable (`let mut next = Some(start).filter(|&id| id != NO_STREAM);
+        # while let Some(id) = next { ..; next = match link { NO_STREAM => None, id => Some(id) } }`)
+        m = re.match(r"^(?:ok|some)\(var:(\w+)\)$", p)
+        if m and self.sentinel is not None:
+            names = {nm: l for l, nm in f.debug_names().items()}
+            l = names.get(m.group(1))
+            if l is not None and str(f.locals[l]["s"]).startswith("std::option::Option<u32>"):
+                return self._check_option_local(f, l, depth + 1, seen, sent)
         m = re.match(r"^var:(\w+)$", p)
         if m:
             names = {nm: l for l, nm in f.debug_names().items()}
@@ -229,6 +245,69 @@ class Qual:
                     return False, w
             return True, "all alternatives qualified"
         return False, "value %s has no qualified origin" % p[:80]
+
+    def _closure_tests_sentinel(self, f, op):
+        from cg import peel
+        l = op_local(op)
+        if l is None:
+            return False
+        ty = peel(f.locals[l])
+        cl = self.ctx.fx.fns.get(ty.get("def")) if ty and ty.get("k") == "closure" else None
+        if cl is None:
+            return False
+        g = guards(self.ctx, cl)
+        for (e, bb, val, vals) in g._edges():
+            if any(self.sentinel in a for a in g.describe_all(bb, val, vals)):
+                return True
+        # `|&id| id != NO_STREAM`: the comparison is the closure's value
+        return bool(re.match(r"^(Ne|Eq)\(", Prov(cl).local(0)) and self.sentinel in Prov(cl).local(0))
+
+    def _check_option_local(self, f, l, depth, seen, sent):
+        """Every Some(..) that can be stored in the Option-valued local l holds a qualified value."""
+        from facts import callee_name
+        key = ("opt", f.path, l)
+        if depth > 10:
+            return False, "inference depth exceeded in an Option-valued variable"
+        if key in seen:
+            return True, "loop-carried"
+        seen = tuple(seen) + (key,)
+        pr = Prov(f)
+        g = guards(self.ctx, f)
+        for d in pr.defs.get(l, []):
+            bb, idx, x = d
+            dnode = ("t", bb) if idx == "t" else ("s", bb, idx)
+            datoms = g.atoms_at(dnode)
+            if idx == "t":
+                nm = callee_name(x) or ""
+                if re.search(r"option::Option::<T>::filter$", nm) and len(x["args"]) == 2:
+                    rl = op_local(x["args"][0])
+                    if rl is None:
+                        return False, "Option::filter on a value that is not a local"
+                    ok, w = self._check_option_local(f, rl, depth + 1, seen, sent or self._closure_tests_sentinel(f, x["args"][1]))
+                    if not ok:
+                        return False, w
+                    continue
+                ok, w = self.check_prov(f, "some(%s)" % pr._def(d, 0, ()), datoms, None, depth + 1, seen, sent)
+                if not ok:
+                    return False, w
+                continue
+            if x.get("s") != "assign" or x["place"]["proj"]:
+                return False, "partial store into an Option-valued variable"
+            rv = x["rv"]
+            if rv["r"] == "aggregate" and rv.get("variant") == "None":
+                continue
+            if rv["r"] == "aggregate" and rv.get("variant") == "Some" and rv.get("ops"):
+                ok, w = self.check_prov(f, pr.operand(rv["ops"][0]), datoms, None, depth + 1, seen, sent)
+                if not ok:
+                    return False, "Some(%s): %s" % (pr.operand(rv["ops"][0])[:50], w)
+                continue
+            if rv["r"] == "use" and op_local(rv["op"]) is not None and not rv["op"]["place"]["proj"]:
+                ok, w = self._check_option_local(f, op_local(rv["op"]), depth + 1, seen, sent)
+                if not ok:
+                    return False, w
+                continue
+            return False, "Option-valued variable defined by %s" % pr._def(d, 0, ())[:60]
+        return True, "every Some(..) stored in the variable holds a qualified value"
 
     def check_param(self, f, pname, depth, seen, sent=False):
         key = (f.path, pname, sent)
